@@ -223,6 +223,7 @@ def run(ctx):
     bindir = lib.cargo_build("h_tx", ["c17_driver"])
     d = stage(ctx)
     model_check(ctx, d)
+    ctx.extra["model_states"] = ctx.states       # TLC states of the specification-only runs
 
     # (2) scheduling: code -> spec
     scale = 3 if ctx.quick() else 16
